@@ -699,3 +699,30 @@ Proof.
   rewrite <- remaining_nil_iff. destruct (rule_history seen r) as (E & _).
   unfold is_satisfied. rewrite E. destruct (remaining (rtags r) seen); split; congruence.
 Qed.
+
+(* ---------- producer discipline on a FilterTokenPort ---------- *)
+Lemma filter_decomp {A} (P : A -> bool) : forall l a t b,
+  filter P l = a ++ t :: b -> exists a0 b0, l = a0 ++ t :: b0 /\ filter P a0 = a /\ filter P b0 = b.
+Proof.
+  induction l as [|x l IH]; intros a t b H; simpl in H.
+  - destruct a; discriminate.
+  - destruct (P x) eqn:Px.
+    + destruct a as [|y a]; simpl in H.
+      * inversion H; subst. exists [], l. simpl. auto.
+      * inversion H; subst. destruct (IH _ _ _ H2) as (a0 & b0 & -> & E1 & E2).
+        exists (y :: a0), b0. simpl. rewrite Px. subst. auto.
+    + destruct (IH _ _ _ H) as (a0 & b0 & -> & E1 & E2). exists (x :: a0), b0. simpl. rewrite Px. auto.
+Qed.
+
+Theorem term_last_filter acc n ops s es c l1 st l2 :
+  run (init (KFilter acc) n) ops = (s, es) -> 0 < n ->
+  (forall a b t, puts 0 ops = a ++ t :: b -> is_term t = true -> b = []) ->
+  recv 0 c (concat es) = l1 ++ Term st :: l2 -> l2 = [].
+Proof.
+  intros H Hn D HR. rewrite (filter_delivery acc n ops s es c H Hn) in HR.
+  pose proof (firstn_skipn (gets 0 c ops) (filter (admitted acc) (puts 0 ops))) as FS. rewrite HR in FS.
+  rewrite <- app_assoc in FS. simpl in FS. symmetry in FS.
+  destruct (filter_decomp _ _ _ _ _ FS) as (a0 & b0 & E & _ & E2).
+  assert (b0 = []) by (eapply D; [exact E|reflexivity]). subst b0. simpl in E2.
+  symmetry in E2. now apply app_eq_nil in E2.
+Qed.
